@@ -125,10 +125,19 @@ def h_reader(s0: int, s1: int, s2: int) -> bool:
             r.read(s0)                 # what a defusing pre-scan consumed
             r.seek(0)
             out = r.read(s1)
-            out = out + r.read(s2)
             if r.tell() != len(out):
                 return False
-            out = out + r.read()
+            # a consumer (the parser) keeps reading chunks of size s2 until a read returns b'' (end of file)
+            if s2 is None or s2 < 0:
+                out = out + r.read(s2)
+            elif s2 > 0:
+                for _ in range(40):
+                    chunk = r.read(s2)
+                    if not chunk:
+                        break
+                    out = out + chunk
+            else:
+                out = out + r.read(0) + r.read()
             if r.tell() != len(out):
                 return False
         except OSError:
